@@ -58,7 +58,20 @@ ApplyTx(L, t, h) ==
       new   == {Entry(t, j, h) : j \in {k \in 1..Len(Outs(t)) : Outs(t)[k].a # OpRet}}
   IN kept \cup new
 
-ApplyBlock(L, b, h) == FoldLeft(LAMBDA acc, t : ApplyTx(acc, t, h), L, Txs(b))
+\* the transactions of a block applied in order (the definition) ...
+ApplyBlockSeq(L, b, h) == FoldLeft(LAMBDA acc, t : ApplyTx(acc, t, h), L, Txs(b))
+
+\* ... and the same result computed block-wise, in O(|L| + |block|) set operations instead of
+\* O(|L| * |block|): on a transaction-valid block (every input exists unspent when it is consumed, which is
+\* the domain of the properties and is checked by UniverseValid) an entry survives iff it is in L or
+\* created by the block, and no transaction of the block spends it.  MC_Ledger checks the two agree.
+\* (TLCEval: TLC represents UNION, \cup and set filters lazily, and membership in a lazy union walks all
+\* its parts; forcing them to enumerated sets is what makes this linear)
+ApplyBlock(L, b, h) ==
+  LET txs == Txs(b)
+      spent == TLCEval(UNION {SpentBy(txs[i]) : i \in 1..Len(txs)})
+      new == TLCEval(UNION {{Entry(txs[i], j, h) : j \in {k \in 1..Len(Outs(txs[i])) : Outs(txs[i])[k].a # OpRet}} : i \in 1..Len(txs)})
+  IN TLCEval({e \in L \cup new : <<e.t, e.j>> \notin spent})
 
 RECURSIVE LedgerAt(_)
 LedgerAt(b) == IF b = 0 THEN {} ELSE ApplyBlock(LedgerAt(Par(b)), b, Height(b))
@@ -90,17 +103,18 @@ LedgerMap ==
   FoldLeft(LAMBDA L, b : [L EXCEPT ![b] = ApplyBlock(IF Par(b) = 0 THEN {} ELSE L[Par(b)], b, 0)],
            [b \in AllBlocks |-> {}], [i \in 1..NumBlocks |-> i])
 
+\* block-wise: every input is an unspent output of the parent's ledger or an output of an EARLIER
+\* transaction of the block, and no output is consumed twice
 TxValidBlockFrom(b, parentLedger) ==
-  LET step(acc, t) ==
-        IF ~acc.ok THEN acc
-        ELSE LET have == {<<e.t, e.j>> : e \in acc.L}
-             IN IF SpentBy(t) \subseteq have /\ Cardinality(SpentBy(t)) = Len(Ins(t))
-                THEN [ok |-> TRUE, L |-> ApplyTx(acc.L, t, 0)]
-                ELSE [ok |-> FALSE, L |-> acc.L]
-  IN /\ Len(Txs(b)) >= 1
-     /\ IsCoinbase(Txs(b)[1])
-     /\ \A i \in 2..Len(Txs(b)) : ~IsCoinbase(Txs(b)[i])
-     /\ FoldLeft(step, [ok |-> TRUE, L |-> parentLedger], Txs(b)).ok
+  LET txs == Txs(b)
+      parentOut == TLCEval({<<e.t, e.j>> : e \in parentLedger})
+      inBlockBefore(o, i) == \E k \in 1..(i - 1) : txs[k] = o[1] /\ o[2] \in 1..Len(Outs(o[1])) /\ Outs(o[1])[o[2]].a # OpRet
+      allSpent == TLCEval(UNION {SpentBy(txs[i]) : i \in 1..Len(txs)})
+  IN /\ Len(txs) >= 1
+     /\ IsCoinbase(txs[1])
+     /\ \A i \in 2..Len(txs) : ~IsCoinbase(txs[i])
+     /\ \A i \in 1..Len(txs) : \A o \in SpentBy(txs[i]) : o \in parentOut \/ inBlockBefore(o, i)
+     /\ Cardinality(allSpent) = SumSeq([i \in 1..Len(txs) |-> Len(Ins(txs[i]))])
 
 UniverseValid ==
   /\ \A b \in AllBlocks : Par(b) < b
